@@ -621,7 +621,14 @@ def acc1_rule(prog, rep, S):
     cs = [c for c in calls_in(du.node) if call_name(c) == "section_unique_ids"]
     def _seed_map(e):
         # the map handed to the traversal: a local, or a dict display that already holds the document's id
-        return isinstance(e, ast.Name) or (isinstance(e, ast.Dict) and any(k is not None and unparse(k) in ("%s.id" % du.params[0], "%s._id" % du.params[0]) for k in e.keys))
+        def holds_id(d):
+            return isinstance(d, ast.Dict) and any(k is not None and unparse(k) in ("%s.id" % du.params[0], "%s._id" % du.params[0]) for k in d.keys)
+        if isinstance(e, ast.Name):
+            defs = [st.value for st in walk_no_nested(du.node) if isinstance(st, ast.Assign) and any(isinstance(t, ast.Name) and t.id == e.id for t in st.targets)]
+            keyed = [st for st in walk_no_nested(du.node) if isinstance(st, ast.Assign) and any(
+                isinstance(t, ast.Subscript) and unparse(t.value) == e.id and unparse(t.slice) in ("%s.id" % du.params[0], "%s._id" % du.params[0]) for t in st.targets)]
+            return bool(defs) and (all(holds_id(d) for d in defs) or bool(keyed))
+        return holds_id(e)
     rep.check(len(cs) == 1 and len(cs[0].args) == 2 and unparse(cs[0].args[0]) == du.params[0] and _seed_map(cs[0].args[1]), "ACC-1",
               "document_unique_ids starts the traversal with a map holding the document id", "ok",
               "document_unique_ids does not call section_unique_ids(doc, id_map)", du.where)
